@@ -1152,7 +1152,24 @@ def apply_opaque(ex, f, args, kwargs):
     return tm.app(f.name, [tm.lift(num(a)) for a in args], f.sort)
 
 
-def np_array(ex, v, dtype=None):
+def np_asarray(ex, v, dtype=None, **kw):
+    """np.asarray: NO copy when the argument already is an array of the requested dtype (the result aliases it: a store
+    through it is a store into the argument); otherwise as np.array"""
+    if kw:
+        raise OutOfSubset(f"np.asarray options {sorted(kw)}")
+    vv = v.arr if isinstance(v, MapList) else v
+    if isinstance(vv, ArrV) and (dtype is None or dtype_code(dtype) == vv.dtype):
+        return vv
+    return np_array(ex, v, dtype)
+
+
+def np_array(ex, v, dtype=None, copy=True, **kw):
+    if kw:
+        raise OutOfSubset(f"np.array options {sorted(kw)}")
+    if copy is not True and not (isinstance(copy, bool) and copy):
+        vv = v.arr if isinstance(v, MapList) else v
+        if isinstance(vv, ArrV) and (dtype is None or dtype_code(dtype) == vv.dtype):
+            return vv
     if isinstance(dtype, list):
         # structured array from a list of tuples (static) or from zip(...) of symbolic arrays
         names = [d[0] for d in dtype]
@@ -1916,7 +1933,7 @@ def _reg(path, impl):
 
 for _mod in ("numpy",):
     _reg(_mod + ".array", np_array)
-    _reg(_mod + ".asarray", np_array)
+    _reg(_mod + ".asarray", np_asarray)
     _reg(_mod + ".zeros", np_zeros_like_model(0))
     _reg(_mod + ".empty", np_zeros_like_model(None))
     _reg(_mod + ".empty_like", np_empty_like)
